@@ -143,7 +143,11 @@ template<typename T, typename K, typename A>
 void density_sketch<T, K, A>::compact_level(unsigned height) {
   auto& level = levels_[height];
   std::vector<bool> bits(level.size());
+#ifdef DATASKETCHES_VERIF
+  bits[0] = random_utils::verif_random_bit();
+#else
   bits[0] = random_utils::random_bit();
+#endif
   std::shuffle(level.begin(), level.end(), random_utils::rand);
   for (unsigned i = 1; i < level.size(); ++i) {
     T delta = 0;
